@@ -470,7 +470,9 @@ class Fragment:
                 break
             start = idx + 1
         if idx < 0:
-            raise ScanError(f"{self.what}: closure anchor not found: {call!r}")
+            # the closure is gone (e.g. the combinator was written out as a match): nothing to annotate
+            self._lost(f'closure {call}')
+            return False
         open_paren = idx + len(call) - 1
         if self.text[open_paren] != '(':
             raise ScanError(f"{self.what}: closure anchor must end with '(': {call!r}")
@@ -621,12 +623,15 @@ class Fragment:
     def iter_partition_point(self, nth=1):
         """let S = X.partition_point(|w| P);  ->  linear scan for the first element falsifying P.
         Equal to the binary search of std when X is partitioned w.r.t. P (an obligation of the unit)."""
-        rx = re.compile(r'let (?P<s>\w+) = (?P<x>[A-Za-z_]\w*(?:\s*\.\s*[A-Za-z_]\w*)*?)\s*\.partition_point\(\|(?P<v>\w+)\|\s*(?P<p>[^)]*?)\);')
+        rx = re.compile(r'let (?P<s>\w+)(?:\s*:\s*[\w<>:]+)? = (?P<x>[A-Za-z_]\w*(?:\s*\.\s*[A-Za-z_]\w*)*?)\s*\.partition_point\(\|(?P<v>\w+)\|\s*(?P<p>[^)]*?)\);')
         it = list(rx.finditer(self.text))
         if len(it) < nth:
             raise ScanError(f"{self.what}: V-ITER partition_point #{nth} not found")
         m = it[nth - 1]
         x, sv = re.sub(r'\s+', '', m.group('x')), m.group('s')
+        if not hasattr(self, 'names'):
+            self.names = {}
+        self.names['partition_point_var'] = sv
         new = (f"let mut {sv}: usize = 0;\n"
                f"        while {sv} < {x}.len() && ({re.sub(chr(92) + 'b' + m.group('v') + chr(92) + 'b', x + '[' + sv + ']', m.group('p').strip())}) {{ {sv} += 1; }};")
         self.text = self.text[:m.start()] + new + self.text[m.end():]
